@@ -215,6 +215,9 @@ def is_assertable(obj: Any, recursion_depth: int = 0) -> bool:
         return False
 
     tp_ = type(obj)
+    if tp_ is complex and obj != obj:  # noqa: PLR0124
+        # A complex number with a NaN part is not equal to itself.
+        return False
     if is_enum(tp_) or is_primitive_type(tp_) or is_none_type(tp_):
         return True
     if is_set(tp_) or is_list(tp_) or is_tuple(tp_):
